@@ -50,6 +50,11 @@ def _mats(tier):
                 if j < dim:
                     m[i][j] = "1"
             out.append(m)
+    # irreducible cubic blocks (roots stay CRootOf) combined with a rational eigenvalue, in both orders
+    for cub in (["-1", "3", "0"], ["-1", "-1", "0"]):
+        for r in ("2", "-3", "1/2"):
+            out.append([["0", "1", "0", "0"], ["0", "0", "1", "0"], [cub[0], cub[1], cub[2], "0"], ["0", "0", "0", r]])
+            out.append([[r, "0", "0", "0"], ["0", "0", "1", "0"], ["0", "0", "0", "1"], ["0", cub[0], cub[1], cub[2]]])
     if tier != "quick":
         seen = set()
         for e in itertools.product(["-1", "0", "1"], repeat=9):
@@ -132,8 +137,9 @@ def run_case(case):
         rational_spec = True
     modes = [("default", {}), ("cyclic", {"force_cyclic_solver": True})]
     if not rational_spec and not parametric:
-        modes += [("numeric_roots", {"force_cyclic_solver": True, "numeric_roots": True, "numeric_eps": 1e-10}),
-                  ("numeric_croots", {"force_cyclic_solver": True, "numeric_croots": True, "numeric_eps": 1e-10})]
+        # numeric modes first: they are cheap, while the exact modes may hit the CPU limit on CRootOf systems
+        modes = [("numeric_roots", {"force_cyclic_solver": True, "numeric_roots": True, "numeric_eps": 1e-10}),
+                 ("numeric_croots", {"force_cyclic_solver": True, "numeric_croots": True, "numeric_eps": 1e-10})] + modes
     results = {}
     for vi, v in enumerate(inits):
         for ci, c in enumerate(inhoms):
